@@ -280,12 +280,10 @@ func fullType(sb *strings.Builder, t *yang.YangType, depth int) {
 	sb.WriteString("}")
 }
 
-var fullBudget int
-
-func fullEntry(sb *strings.Builder, e *yang.Entry, path string, depth int) {
-	fullBudget--
-	if depth > 200 || fullBudget < 0 {
-		if fullBudget > -5 {
+func fullEntry(sb *strings.Builder, e *yang.Entry, path string, depth int, fullBudget *int) {
+	*fullBudget--
+	if depth > 200 || *fullBudget < 0 {
+		if *fullBudget > -5 {
 			fmt.Fprintf(sb, "%s: (tree too large or too deep: dump truncated)\n", path)
 		}
 		return
@@ -396,10 +394,10 @@ func fullEntry(sb *strings.Builder, e *yang.Entry, path string, depth int) {
 	sb.WriteString("\n")
 	if e.RPC != nil {
 		if e.RPC.Input != nil {
-			fullEntry(sb, e.RPC.Input, path+"/input", depth+1)
+			fullEntry(sb, e.RPC.Input, path+"/input", depth+1, fullBudget)
 		}
 		if e.RPC.Output != nil {
-			fullEntry(sb, e.RPC.Output, path+"/output", depth+1)
+			fullEntry(sb, e.RPC.Output, path+"/output", depth+1, fullBudget)
 		}
 	}
 	var ks []string
@@ -408,7 +406,7 @@ func fullEntry(sb *strings.Builder, e *yang.Entry, path string, depth int) {
 	}
 	sort.Strings(ks)
 	for _, k := range ks {
-		fullEntry(sb, e.Dir[k], path+"/"+k, depth+1)
+		fullEntry(sb, e.Dir[k], path+"/"+k, depth+1, fullBudget)
 	}
 }
 
@@ -426,7 +424,8 @@ func Errors(errs []error) string {
 // node of every module and submodule tree.
 func Full(ms *yang.Modules, trees bool) string {
 	var sb strings.Builder
-	fullBudget = NodeBudget
+	budget := NodeBudget
+	fullBudget := &budget
 	for _, k := range sortedModKeys(ms.Modules) {
 		fmt.Fprintf(&sb, "Modules[%s] -> %s\n", k, ms.Modules[k].FullName())
 	}
@@ -461,7 +460,7 @@ func Full(ms *yang.Modules, trees bool) string {
 				}
 				sb.WriteString("]\n")
 			}
-			fullEntry(&sb, e, "/"+e.Name, 0)
+			fullEntry(&sb, e, "/"+e.Name, 0, fullBudget)
 		}
 	}
 	return sb.String()
